@@ -1,1 +1,16 @@
-fn main() {}
+//! `synfacts FILE...` : facts of emitted files produced by the real CLI (tie E), one JSON object
+//! {"<path>": facts} on stdout.  Does not depend on /repo at all.
+#[path = "facts.rs"]
+mod facts;
+
+fn main() {
+  let mut out = serde_json::Map::new();
+  for p in std::env::args().skip(1) {
+    let v = match std::fs::read_to_string(&p) {
+      Ok(code) => facts::file_facts(&code),
+      Err(e) => serde_json::json!({"read_error": e.to_string()}),
+    };
+    out.insert(p, v);
+  }
+  println!("{}", serde_json::Value::Object(out));
+}
